@@ -139,6 +139,12 @@ Proof.
   intros _. assert (now n + dt <? x + 5 = true) as -> by lia. reflexivity.
 Qed.
 
+(* options with a duration <= 0 (or no option) leave the defaults, whose TTLs are proper ones *)
+Lemma effective_default d dflt : d <= 0 -> effective (Some d) dflt = dflt /\ effective None dflt = dflt.
+Proof. intro H. unfold effective. destruct (Z.leb_spec d 0); [auto|lia]. Qed.
+Lemma effective_positive g dflt : 0 < dflt -> 0 < effective g dflt.
+Proof. intro H. unfold effective. destruct g as [d|]; [|assumption]. destruct (Z.leb_spec d 0); lia. Qed.
+
 (* no upper bound on the expiry anywhere above; and from one second on the TTL is at least one second, so
    SETEX never degenerates into "no expiry" *)
 Lemma ttl_positive f e : draw_ok f -> dur_ok e -> sec <= e -> 1 <= ceil_secs (around f e).
